@@ -326,7 +326,7 @@ def rx_passes(pid, tier):
                   ['--mode', 'c04w', '--setsize', '6', '--pool', '2', '--maxlen', '3' if q else '5']))
         return P
     if pid == 'C10':
-        return [('5 term sets (single-char, multi-char, multi-line lexemes, over-reading lexer) x 2 grammars (token list; statements with an error rule) x inputs<=%d over {x,q,;,space,\\t,\\r,\\n,0x80} x 3 whitespace option combinations' % (5 if q else 7),
+        return [('5 term sets (single-char, multi-char, multi-line lexemes, over-reading lexer) x 2 grammars (token list; statements with an error rule) x inputs<=%d over {x,q,;,space,\\t,\\r,\\n,\\v,\\f,0x80} x 3 whitespace option combinations' % (5 if q else 7),
                  ['--mode', 'c10', '--maxlen', '5' if q else '7'])]
     if pid == 'C17':
         P = [('every string of length<=%d over a 21-symbol pattern alphabet offered as a pattern' % (4 if q else 5), ['--mode', 'c17', '--maxlen', '4' if q else '5'])]
@@ -632,12 +632,12 @@ def run_rx_for(sub, pid, tier, rep, deadline_s):
 
 def run_c17(pid, tier, rep, deadline_s):
     run_rx(pid, tier, rep, deadline_s); cov = dict(rep.coverage)
-    totals, samples, bounds, extra = run_progs(pid, rep, [dict(name='c17u', src='c17_undeclared.cpp', flags=['-O0'], label='grammars mentioning undeclared symbols: 32 refusal cases (root / left side / right side x nterm / char / string / regex term x unrelated, extending and prefix names; each of the 9 positions of a 9-symbol rule; the 21st rule; 69-character names differing in the last character) + 6 acceptance controls')], deadline_s)
+    totals, samples, bounds, extra = run_progs(pid, rep, [dict(name='c17u', src='c17_undeclared.cpp', flags=['-O0'], label='grammars mentioning undeclared symbols: 34 refusal cases (root / left side / right side x nterm / char / string / regex term x unrelated, extending and prefix names; each of the 9 positions of a 9-symbol rule; the 21st rule; 69-character names differing in the last character) + 6 acceptance controls')], deadline_s)
     rep.coverage = merge_cov(cov, {'states': totals['cases'], 'transitions': totals['checks'], 'traces_validated_against_impl': totals['cases'], 'samples': samples, 'evaluations': totals['cases'], 'distinct_nontrivial': extra.get('refused', 0), 'bounds': bounds,
                                    'exhaustive': all(b['completed'] for b in bounds), 'rule': 'Grammar part: run-time construction of parsers whose rules mention an undeclared symbol in every position kind must throw (compiled black-box program, g++ and clang++).'})
 
 # ----------------------------------------------------------------------------- C15: histories, schedules, TSan
-C15_RULE = 'Call alphabet of 15 calls on two parser objects (generated lexer + typed term + error rule; custom lexer): accepted, recovering, failing-at-eof, lexical-error and failing-recovery parses, a verbose parse, context_parse with a mutated context, write_diag_str, and a re-entrant call (a functor of the running parse starts a complete second parse, with recovery, on the same parser object; absolute oracle: both observe what they observe on their own). (1) Histories: every call sequence up to the depth bound runs in its own forked process on parser objects placed in read-only (mprotect) pages; after every call the bytes of the parser objects and of the program\'s .data/.bss must be unchanged and the last call must observe (result, functor log, stream text) exactly what it observes as the first call of a fresh process. (2) Schedules: for 12 pairs of calls two real threads run under a baton-passing scheduler with scheduling points in every user-supplied seam (buffer iterator dereference/increment, functor call, stream <<, custom lexer match); every schedule with at most 2 preemptions is executed (stateless depth-first enumeration by choice-sequence replay, one forked process per execution, divergence on replay is a harness error); each thread must observe its isolated result; the same for 6 triples of calls on three threads (which thread starts and which continues after one ends are enumerated as free choices, preemption bound 1 quick / 2 thorough). (3) Side condition, not the deciding step: the same bodies free-running on 3 threads under ThreadSanitizer.'
+C15_RULE = 'Call alphabet of 17 calls on two parser objects (generated lexer + typed term + error rule; custom lexer): accepted, recovering, failing-at-eof, lexical-error and failing-recovery parses, a verbose parse, context_parse with a mutated context, write_diag_str, and a re-entrant call (a functor of the running parse starts a complete second parse, with recovery, on the same parser object; absolute oracle: both observe what they observe on their own), and two parses that are left by an exception thrown from a functor. (1) Histories: every call sequence up to the depth bound runs in its own forked process on parser objects placed in read-only (mprotect) pages; after every call the bytes of the parser objects and of the program\'s .data/.bss must be unchanged and the last call must observe (result, functor log, stream text) exactly what it observes as the first call of a fresh process. (2) Schedules: for 12 pairs of calls two real threads run under a baton-passing scheduler with scheduling points in every user-supplied seam (buffer iterator dereference/increment, functor call, stream <<, custom lexer match); every schedule with at most 2 preemptions is executed (stateless depth-first enumeration by choice-sequence replay, one forked process per execution, divergence on replay is a harness error); each thread must observe its isolated result; the same for 6 triples of calls on three threads (which thread starts and which continues after one ends are enumerated as free choices, preemption bound 1 quick / 2 thorough). (3) Side condition, not the deciding step: the same bodies free-running on 3 threads under ThreadSanitizer.'
 
 def run_c15(pid, tier, rep, deadline_s):
     q = tier == 'quick'
@@ -662,7 +662,7 @@ def run_c15(pid, tier, rep, deadline_s):
             bounds.append({'pass': 'all call sequences up to depth %d over %d calls' % (depth, res['alphabet']), 'completed': True, 'histories': res['histories']})
             samples.append({'mode': 'hist', 'result': res}); states += res['histories']; trans += res['checks']; cases += res['histories']
         bound = 2
-        nsh = 13
+        nsh = 14
         with ThreadPoolExecutor(max_workers=nsh) as ex: outs = list(ex.map(lambda k: sh([exe, 'sched', str(bound), '%d/%d' % (k, nsh)], timeout=PROG_TIMEOUT), range(nsh)))
         tot = {'schedules': 0, 'scheduling_points': 0, 'failures': 0, 'pairs': 0, 'maxp': 0}; first = ''
         ok = True
